@@ -471,7 +471,33 @@ def gen_C05(tier, seed):
                 kv["earliest"] = 1
             kv["cfgs"] = cfgs(cf)
             reqs.append(fmt_req(op, kv))
-    return {"reqs": reqs, "certs": [], "gen": g}
+    # the prefilters themselves: variant chosen + candidate for a span, against the L3 model
+    pcf = ["nc.d.1.1.b", "c.d.1.1.b", "dfa.d.1.1.u"]
+    for _ in range(300 if q else 4000):
+        pats = pre_pats(g)
+        mk = g.rng.choice(["std", "lf", "ll"])
+        fold = g.rng.random() < 0.3
+        for _ in range(3):
+            hay = pre_hay(g, pats, fold)
+            s, e = g.span(len(hay))
+            if s > e:
+                s, e = e, e
+            kv = {"mk": mk, "pats": hxlist(pats), "hay": hx(hay), "s": s, "e": e}
+            if fold:
+                kv["fold"] = 1
+            kv["cfgs"] = cfgs(pcf)
+            reqs.append(fmt_req("pre", kv))
+    # builder gates: empty pattern, > 128 patterns, long patterns, non-ASCII start bytes
+    special = [[b"ab", b""], [bytes([97 + i % 26, 97 + i // 26, 120]) for i in range(130)], [b"a" * 256, b"b" * 3],
+               [bytes([0x80]) + b"a"], [b"a"], [b"ab", b"ac", b"ad", b"ae"], [b"xa", b"ya", b"za", b"wa"]]
+    for pats in special:
+        for mk in ("std", "lf"):
+            for fold in (0, 1):
+                kv = {"mk": mk, "pats": hxlist(pats), "hay": hx(b"xxabxx" + pats[0][:3]), "cfgs": cfgs(pcf)}
+                if fold:
+                    kv["fold"] = 1
+                reqs.append(fmt_req("pre", kv))
+    return {"reqs": reqs, "certs": [], "gen": g, "needs_consts": ["pre"], "needs_cpu": True}
 
 
 def gen_C10(tier, seed):
